@@ -126,36 +126,61 @@ func parseValue(dec *json.Decoder, depth int) (*node, error) {
 
 // strictDomain says whether a parsed document lies in the domain the statement
 // and the cursor notation can speak about: unique keys per object, keys without
-// '.', '[' or ']', numbers representable as finite float64.
+// '.', '[' or ']', numbers representable as finite float64, nesting no deeper
+// than maxDomainDepth (JSON parsers bound the nesting; the pinned one at 300),
+// no lone surrogate escapes.
+const maxDomainDepth = 64
+
 func strictDomain(n *node) (bool, string) {
+	why := map[string]bool{}
+	strictDomainAt(n, 0, why)
+	// report the strongest reason; "key-with-cursor-metachar" alone only matters
+	// when exclusions are given
+	for _, w := range []string{"nesting-too-deep", "duplicate-key", "number-out-of-float64-range", "lone-surrogate-or-replacement-char", "key-with-cursor-metachar"} {
+		if why[w] {
+			return false, w
+		}
+	}
+	return true, ""
+}
+
+func strictDomainAt(n *node, depth int, why map[string]bool) {
+	if depth > maxDomainDepth {
+		why["nesting-too-deep"] = true
+		return
+	}
 	switch n.K {
 	case kObj:
 		seen := map[string]bool{}
 		for i, k := range n.Keys {
 			if seen[k] {
-				return false, "duplicate-key"
+				why["duplicate-key"] = true
 			}
 			seen[k] = true
 			if strings.ContainsAny(k, ".[]") {
-				return false, "key-with-cursor-metachar"
+				why["key-with-cursor-metachar"] = true
 			}
-			if ok, why := strictDomain(n.Vals[i]); !ok {
-				return false, why
+			if strings.ContainsRune(k, utf8.RuneError) {
+				why["lone-surrogate-or-replacement-char"] = true
 			}
+			strictDomainAt(n.Vals[i], depth+1, why)
 		}
 	case kArr:
 		for _, it := range n.Items {
-			if ok, why := strictDomain(it); !ok {
-				return false, why
-			}
+			strictDomainAt(it, depth+1, why)
+		}
+	case kStr:
+		// a lone surrogate escape ("\ud800") is decoded to U+FFFD here and to
+		// something else elsewhere: no canonical form to compare with
+		if strings.ContainsRune(n.S, utf8.RuneError) {
+			why["lone-surrogate-or-replacement-char"] = true
 		}
 	case kNum:
 		f, err := strconv.ParseFloat(n.N, 64)
 		if err != nil || math.IsInf(f, 0) || math.IsNaN(f) {
-			return false, "number-out-of-float64-range"
+			why["number-out-of-float64-range"] = true
 		}
 	}
-	return true, ""
 }
 
 // ---- renderer ---------------------------------------------------------------
@@ -321,6 +346,15 @@ func parseCursor(x string) ([]string, bool) {
 
 // ---- generators -------------------------------------------------------------
 
+// chance draws an event of probability about num/den. rapid's integer draws
+// favour values near the lower bound, so the event is mapped to the middle of
+// the range: rare events stay rare, and shrinking (towards 0) removes them.
+func chance(t *rapid.T, label string, num, den int) bool {
+	v := rapid.IntRange(0, den-1).Draw(t, label)
+	lo := den/2 + 1
+	return v >= lo && v < lo+num
+}
+
 // small pool, weighted: the same name must recur at different depths. "body",
 // "request", "response" are included because the '$.request.body…' notation is
 // only a string prefix of the cursor notation.
@@ -329,6 +363,10 @@ var keyPool = []string{"a", "a", "a", "b", "b", "name", "name", "name", "user", 
 var valueRunes = []rune{'a', 'b', 'Z', '0', '7', ' ', '.', '[', ']', '$', '"', '\\', '/', '\n', '\t', '\u0001', 'é', 'ß', '日', '😀', '<', '&', ' '}
 
 var keyRunes = []rune{'a', 'k', 'Z', '0', ' ', '$', '"', '\\', '/', '\n', 'é', '日', '😀', '-', '_', ':'}
+
+// runes the pinned JSON library cannot write back into a key (finding C16-F3);
+// drawn rarely so that the finding is observed without dominating the search
+var keyRunesF3 = []rune{'a', '"', '\u0001', '\u007f', '\v'}
 
 var numberPool = []string{
 	"0", "-0", "1", "10", "-7", "42", "10.9", "81.101", "10.999", "0.005", "1.005", "0.125", "2.675", "-3.14159",
@@ -340,13 +378,13 @@ var stringPool = []string{"", "x", "secret", "Alice", "12345", "true", "null", "
 
 func genString(t *rapid.T, label string) (string, string) {
 	var s string
-	if rapid.IntRange(0, 2).Draw(t, label+"-pool") == 0 {
+	if chance(t, label+"-pool", 2, 6) {
 		s = rapid.SampledFrom(stringPool).Draw(t, label)
 	} else {
 		s = rapid.StringOfN(rapid.SampledFrom(valueRunes), 0, 8, -1).Draw(t, label)
 	}
 	raw := ""
-	if rapid.IntRange(0, 4).Draw(t, label+"-esc") == 0 {
+	if chance(t, label+"-esc", 1, 5) {
 		raw = quoteEscaped(s)
 	}
 	return s, raw
@@ -378,8 +416,12 @@ func pow10(w int) int {
 }
 
 func genKey(t *rapid.T) (string, string) {
-	if rapid.IntRange(0, 11).Draw(t, "weird-key") == 0 {
-		k := rapid.StringOfN(rapid.SampledFrom(keyRunes), 1, 5, -1).Draw(t, "key")
+	if chance(t, "weird-key", 1, 12) {
+		runes := keyRunes
+		if chance(t, "ctl-key", 1, 25) {
+			runes = keyRunesF3
+		}
+		k := rapid.StringOfN(rapid.SampledFrom(runes), 1, 5, -1).Draw(t, "key")
 		raw := ""
 		if rapid.Bool().Draw(t, "key-esc") {
 			raw = quoteEscaped(k)
@@ -405,12 +447,18 @@ func genPrimitive(t *rapid.T) *node {
 func genValue(t *rapid.T, depth, maxDepth int) *node {
 	choice := 0 // primitive
 	if depth < maxDepth {
-		c := rapid.IntRange(0, 9).Draw(t, "shape")
+		// 0..19, primitives in the middle of the range (see chance)
+		c := rapid.IntRange(0, 19).Draw(t, "shape")
+		prim := c >= 11 && c < 19 // 40%
+		if depth == 0 {
+			prim = c == 11 // 5%
+		}
 		switch {
-		case depth == 0 && c < 7, c < 4:
+		case prim:
+		case c%3 == 2:
+			choice = 2 // array, about a third of the containers
+		default:
 			choice = 1 // object
-		case c < 6 || (depth == 0 && c < 9):
-			choice = 2 // array
 		}
 	}
 	switch choice {
@@ -472,7 +520,7 @@ type genDoc struct {
 func genDocument(t *rapid.T) genDoc {
 	maxDepth := rapid.IntRange(2, 4).Draw(t, "max-depth")
 	root := genValue(t, 0, maxDepth)
-	pretty := rapid.IntRange(0, 3).Draw(t, "pretty") == 0
+	pretty := chance(t, "pretty", 1, 4)
 	return genDoc{root: root, text: render(root, pretty)}
 }
 
@@ -484,13 +532,16 @@ func genCursorExclusions(t *rapid.T, doc *node, label string) []string {
 	cnt := rapid.IntRange(0, 4).Draw(t, label+"-count")
 	pickSegs := func(tag string) []string {
 		// the root (cursor "") only rarely: it excludes the whole document
-		if len(nodes) == 1 || rapid.IntRange(0, 29).Draw(t, tag+"-root") == 0 {
+		if chance(t, tag+"-root", 1, 40) {
 			return nil
+		}
+		if len(nodes) == 1 {
+			return []string{segKey(rapid.SampledFrom(keyPool).Draw(t, tag+"-absent"))}
 		}
 		return nodes[rapid.IntRange(1, len(nodes)-1).Draw(t, tag)].segs
 	}
 	poolSeg := func(tag string) string {
-		if rapid.IntRange(0, 4).Draw(t, tag+"-arr") == 0 {
+		if chance(t, tag+"-arr", 1, 5) {
 			return segArr
 		}
 		return segKey(rapid.SampledFrom(keyPool).Draw(t, tag))
